@@ -37,14 +37,14 @@ type c28Case struct {
 
 var c28Kinds = []string{
 	"get", "head", "post-cl", "post-chunked", "post-expect",
-	"mod-get",           // module answers, no body
-	"mod-post-cl",       // module answers, body never read by a handler
-	"mod-post-chunked",  // same, chunked
-	"mod-post-expect",   // module answers a request that expected 100-continue
-	"get-http10",        // HTTP/1.0 without keep-alive: connection ends after it
-	"big-header",        // header section above MaxHeaderBytes
-	"bad-request-line",  // unparsable request line
-	"post-cl-conn-close", // Connection: close
+	"mod-get",                  // module answers, no body
+	"mod-post-cl",              // module answers, body never read by a handler
+	"mod-post-chunked",         // same, chunked
+	"mod-post-expect",          // module answers a request that expected 100-continue
+	"get-http10",               // HTTP/1.0 without keep-alive: connection ends after it
+	"big-header",               // header section above MaxHeaderBytes
+	"bad-request-line",         // unparsable request line
+	"post-cl-conn-close",       // Connection: close
 	"mod-post-chunked-badsize", // module answers; the unread chunked body has a malformed chunk-size line
 	"post-chunked-badsize",     // forwarded; the chunked body has a malformed chunk-size line
 }
